@@ -76,7 +76,7 @@ func (l *vfE5Life) backlogBeforeExit() []string {
 	var names []string
 	for _, t := range chosen {
 		for i, k := 0, 1+l.r.Intn(4); i < k; i++ {
-			body := l.r.Bytes(l.r.Intn(9))
+			body := vfE5Body(l.r, int(l.n.getOpts().MaxMsgSize))
 			m := NewMessage(t.GenerateID(), body)
 			line := fmt.Sprintf("pub %s %s %d %s", t.name, vfE5IDNum(m.ID), m.Timestamp, vfHex(body))
 			if err := t.PutMessage(m); err != nil {
